@@ -230,3 +230,69 @@ func VerifC02Long() {
 	c02compare(s, ref, "long")
 	zz.Reach("end")
 }
+
+// c02seqEvent: one event of a structured track body; rs = running status in force (0 = none).
+func c02seqEvent(k string, rs byte) (ev []byte, newrs byte) {
+	d := zz.U8("delta" + k)
+	zz.Assume(d < 0x80)
+	switch zz.Choice("evkind"+k, 6) {
+	case 0: // channel message with explicit status
+		st, a, b := zz.U8("st"+k), zz.U8("a"+k), zz.U8("b"+k)
+		zz.Assume(st >= 0x80 && st <= 0xEF && a < 0x80 && b < 0x80)
+		if st&0xF0 == 0xC0 || st&0xF0 == 0xD0 {
+			return []byte{d, st, a}, st
+		}
+		return []byte{d, st, a, b}, st
+	case 1: // running status (legal only after a channel message)
+		zz.Assume(rs != 0)
+		a, b := zz.U8("a"+k), zz.U8("b"+k)
+		zz.Assume(a < 0x80 && b < 0x80)
+		if rs&0xF0 == 0xC0 || rs&0xF0 == 0xD0 {
+			return []byte{d, a}, rs
+		}
+		return []byte{d, a, b}, rs
+	case 2: // meta, empty payload
+		typ := zz.U8("typ" + k)
+		zz.Assume(typ != 0x2F)
+		return []byte{d, 0xFF, typ, 0}, 0
+	case 3: // meta, one byte, non-minimal length field
+		typ := zz.U8("typ" + k)
+		zz.Assume(typ != 0x2F)
+		return []byte{d, 0xFF, typ, 0x80, 1, zz.U8("p" + k)}, 0
+	case 4:
+		return []byte{d, 0xF0, 1, zz.U8("x" + k)}, 0
+	default:
+		return []byte{d, 0xF7, 1, zz.U8("x" + k)}, 0
+	}
+}
+
+// VerifC02Seq: one track of K structured events (running status in every legal position, packets that
+// cancel it, non-minimal lengths) — longer bodies than VerifC02Raw reaches with fully symbolic bytes.
+func VerifC02Seq() {
+	K := zz.Param("K")
+	var body []byte
+	var rs byte
+	for i := 0; i < K; i++ {
+		var ev []byte
+		ev, rs = c02seqEvent(string(rune('a'+i)), rs)
+		body = append(body, ev...)
+	}
+	body = append(body, 0, 0xFF, 0x2F, 0)
+	file := append(c02header(0, 1, 480), c02chunk("MTrk", body)...)
+	ref := refDecode(file, refOpts{})
+	zz.Assert(ref.ok, "generator-produces-valid-files")
+	if !ref.ok {
+		return
+	}
+	s, err, panicked := c02read(file)
+	zz.Assert(!panicked, "no-panic-on-valid-file")
+	if panicked {
+		return
+	}
+	zz.Assert(err == nil, "valid-file-accepted")
+	if err != nil || s == nil {
+		return
+	}
+	c02compare(s, ref, "seq")
+	zz.Reach("end")
+}
